@@ -170,11 +170,33 @@ def library_option_reads(repo, modules):
             for lp in ast.walk(fn):
                 if isinstance(lp, ast.For) and isinstance(lp.target, ast.Name) and lp.target.id in ("node", "cls", "function", "method", "var"):
                     in_decl_loop.update(id(x) for x in ast.walk(lp))
+            # `node, fmt, arg = self.table[key]` inside a loop: the loop body works on one declaration as well
+            for lp in ast.walk(fn):
+                if isinstance(lp, (ast.For, ast.While)):
+                    for a in ast.walk(lp):
+                        if isinstance(a, ast.Assign) and any(isinstance(e, ast.Name) and e.id in ("node", "cls", "function", "method", "var")
+                                                             for t in a.targets for e in ast.walk(t)):
+                            in_decl_loop.update(id(x) for x in ast.walk(lp))
             if not per_decl and not in_decl_loop:
                 continue
+            # local names for the library's option table
+            lib_alias = set()
+            for a in ast.walk(fn):
+                if isinstance(a, ast.Assign) and len(a.targets) == 1 and isinstance(a.targets[0], ast.Name) \
+                        and isinstance(a.value, ast.Attribute) and a.value.attr == "options":
+                    d = pyflow.dotted(a.value.value) or ""
+                    if d.endswith("newlibrary") or d in ("libnode", "library"):
+                        binds = [b for b in ast.walk(fn) if isinstance(b, ast.Assign) and any(pyflow.is_name(t_, a.targets[0].id) for t_ in b.targets)]
+                        if len(binds) == 1:
+                            lib_alias.add(a.targets[0].id)
             for x in ast.walk(fn):
                 if not per_decl and id(x) not in in_decl_loop:
                     continue
+                if isinstance(x, ast.Attribute) and isinstance(x.value, ast.Name) and x.value.id in lib_alias and isinstance(x.ctx, ast.Load):
+                    n += 1
+                    if x.attr not in LIBRARY_LEVEL_OPTIONS:
+                        out.append((mn, q, x, "`%s.%s` (the library's option table) is read inside a pass over one declaration: "
+                                    "the same option set on the declaration (or its class/namespace) is ignored" % (x.value.id, x.attr)))
                 if isinstance(x, ast.Attribute) and isinstance(x.value, ast.Attribute) and x.value.attr == "options":
                     d = pyflow.dotted(x.value.value) or ""
                     if d.endswith("newlibrary") or d in ("libnode", "library"):
@@ -409,11 +431,18 @@ def container_flag_in_element_loop(repo, modules, attrs=("wrap",)):
                 if cont == child:
                     continue   # `for node in node.enums`: inside the loop the name is the child
                 aliases = {}
-                for st in ast.walk(lp):
+                for st in ast.walk(fn):
                     if isinstance(st, ast.Assign) and len(st.targets) == 1 and isinstance(st.targets[0], ast.Name) \
                             and isinstance(st.value, ast.Attribute) and isinstance(st.value.value, ast.Name) \
-                            and st.value.value.id == cont and st.value.attr in attrs:
+                            and st.value.value.id == cont and st.value.attr in attrs and st.lineno < lp.end_lineno:
                         aliases[st.targets[0].id] = st
+                # a name that is bound more than once in the function is not an alias of the container's table throughout
+                for nm in list(aliases):
+                    binds = [b for b in ast.walk(fn) if isinstance(b, ast.Assign) and any(pyflow.is_name(t_, nm) for t_ in b.targets)]
+                    if len(binds) != 1:
+                        inside = [b for b in binds if lp.lineno <= b.lineno <= lp.end_lineno]
+                        if not (len(inside) == 1 and inside[0] is aliases[nm]):
+                            del aliases[nm]
                 for t in ast.walk(lp):
                     if not isinstance(t, (ast.If, ast.IfExp)):
                         continue
@@ -1518,3 +1547,133 @@ def snapshot_before_update(repo, modules):
                                         "the copies do not get `%s`" % (src, c.lineno, " ".join(ast.unparse(hit).split())[:60])))
                             break
     return out, n
+
+
+def inherited_container_mutated(repo, modules):
+    """`blk = util.Scope(parent, a=...)` looks a missing field up in `parent`.  `blk.declare.extend(x)` with no `declare=`
+    given at construction changes the parent's list - for the statement defaults (PyStmts, CStmts, ...) that is one list for
+    the whole process: the line shows up in every later wrapper."""
+    MUT = ("append", "extend", "insert", "update", "setdefault", "add", "remove", "pop", "clear", "sort")
+    out, n = [], 0
+    for mn in modules:
+        m = repo.module(mn)
+        for q, fn in m.functions().items():
+            scopes = {}
+            for a in ast.walk(fn):
+                if isinstance(a, ast.Assign) and len(a.targets) == 1 and isinstance(a.targets[0], ast.Name) \
+                        and isinstance(a.value, ast.Call) and (pyflow.call_name(a.value) or "").split(".")[-1] == "Scope" \
+                        and a.value.args and not (isinstance(a.value.args[0], ast.Constant) and a.value.args[0].value is None) \
+                        and not any(k.arg is None for k in a.value.keywords):
+                    scopes.setdefault(a.targets[0].id, []).append(a)
+            if not scopes:
+                continue
+            for c in ast.walk(fn):
+                if not (isinstance(c, ast.Call) and isinstance(c.func, ast.Attribute) and c.func.attr in MUT
+                        and isinstance(c.func.value, ast.Attribute) and isinstance(c.func.value.value, ast.Name)
+                        and c.func.value.value.id in scopes):
+                    continue
+                var, field = c.func.value.value.id, c.func.value.attr
+                # the construction that reaches this use: the last one above it
+                above = [a for a in scopes[var] if a.lineno < c.lineno]
+                if not above:
+                    continue
+                a = max(above, key=lambda x: x.lineno)
+                n += 1
+                own = set(k.arg for k in a.value.keywords)
+                # a field assigned on the scope itself in between is its own as well
+                for b in ast.walk(fn):
+                    if isinstance(b, ast.Assign) and a.lineno < b.lineno < c.lineno:
+                        for t in b.targets:
+                            if isinstance(t, ast.Attribute) and pyflow.is_name(t.value, var):
+                                own.add(t.attr)
+                if field not in own:
+                    out.append((mn, q, c, "`%s` is a Scope over `%s` made without a `%s=` of its own: `%s` changes the list of the "
+                                "parent, which every other block made from it reads" % (var, ast.unparse(a.value.args[0]), field,
+                                                                                       " ".join(ast.unparse(c).split())[:60])))
+    return out, n
+
+
+def break_on_element_flag(repo, modules):
+    """`for var in node.variables: if not var.wrap.python: break` - the wrap flag says whether *this* element is wrapped;
+    leaving the loop drops every element behind the first one that is switched off (`continue` is meant)."""
+    out, n = [], 0
+    for mn in modules:
+        m = repo.module(mn)
+        for q, fn in m.functions().items():
+            for lp in ast.walk(fn):
+                if not (isinstance(lp, ast.For) and isinstance(lp.target, ast.Name)):
+                    continue
+                v = lp.target.id
+                for i in ast.walk(lp):
+                    if not isinstance(i, ast.If):
+                        continue
+                    reads = [x for x in ast.walk(i.test) if isinstance(x, ast.Attribute) and isinstance(x.value, ast.Attribute)
+                             and x.value.attr == "wrap" and pyflow.is_name(x.value.value, v)]
+                    if not reads:
+                        continue
+                    n += 1
+                    for arm in (i.body, i.orelse):
+                        if any(isinstance(st, ast.Break) for st in arm):
+                            # the innermost loop of the break is this one
+                            inner = [l for l in ast.walk(lp) if isinstance(l, (ast.For, ast.While)) and l is not lp
+                                     and any(x is i for x in ast.walk(l))]
+                            if not inner:
+                                out.append((mn, q, i, "`%s` decides about `%s` alone, and the loop over `%s` is left: the elements "
+                                            "behind the first one that is switched off are never looked at"
+                                            % (ast.unparse(i.test), v, ast.unparse(lp.iter))))
+    return out, n
+
+
+def required_key_presence_only(repo, modules):
+    """`if "k" not in d: raise RuntimeError("... requires k")` and nothing looks at the value: in a YAML file `k:` with
+    nothing behind it is present and None, so the requirement is met by a blank entry and None travels on."""
+    out, n = [], 0
+    for mn in modules:
+        m = repo.module(mn)
+        for q, fn in m.functions().items():
+            for i in ast.walk(fn):
+                if not (isinstance(i, ast.If) and any(isinstance(x, ast.Raise) for st in i.body for x in ast.walk(st))):
+                    continue
+                for c in ast.walk(i.test):
+                    if not (isinstance(c, ast.Compare) and len(c.ops) == 1 and isinstance(c.ops[0], ast.NotIn)
+                            and pyflow.const_str(c.left) and isinstance(c.comparators[0], ast.Name)):
+                        continue
+                    key, d = pyflow.const_str(c.left), c.comparators[0].id
+                    if key.startswith("__") or len(key) < 2 or not re.match(r"^\w+$", key):
+                        continue
+                    n += 1
+                    # the value is examined somewhere: d["k"] / d.get("k") inside a test, isinstance, or a checking helper
+                    looked = False
+                    for x in ast.walk(fn):
+                        if isinstance(x, ast.Subscript) and pyflow.is_name(x.value, d) and pyflow.const_str(x.slice) == key:
+                            src = x
+                        elif isinstance(x, ast.Call) and isinstance(x.func, ast.Attribute) and x.func.attr == "get" \
+                                and pyflow.is_name(x.func.value, d) and x.args and pyflow.const_str(x.args[0]) == key:
+                            src = x
+                        else:
+                            continue
+                        # local copy: v = d["k"]; then tests of v count
+                        names = set()
+                        par = getattr(src, "_parent", None)
+                        if isinstance(par, ast.Assign) and len(par.targets) == 1 and isinstance(par.targets[0], ast.Name):
+                            names.add(par.targets[0].id)
+                        p2 = par
+                        while p2 is not None and not isinstance(p2, ast.stmt):
+                            if isinstance(p2, ast.Call) and (pyflow.call_name(p2) or "") in ("isinstance", "str", "int", "len"):
+                                looked = True
+                            if isinstance(p2, (ast.Compare, ast.BoolOp, ast.UnaryOp)):
+                                looked = True
+                            p2 = getattr(p2, "_parent", None)
+                        if isinstance(p2, (ast.If, ast.While)) and any(y is src for y in ast.walk(p2.test)):
+                            looked = True
+                        for nm in names:
+                            for t in ast.walk(fn):
+                                if isinstance(t, (ast.If, ast.IfExp)) and any(pyflow.is_name(y, nm) for y in ast.walk(t.test)):
+                                    looked = True
+                                if isinstance(t, ast.Call) and (pyflow.call_name(t) or "") == "isinstance" and t.args and pyflow.is_name(t.args[0], nm):
+                                    looked = True
+                    if not looked:
+                        out.append((mn, q, i, "`%s` is required to be present in `%s` and its value is never examined: `%s:` with "
+                                    "nothing behind it (None) passes the test" % (key, d, key)))
+    return out, n
+
